@@ -39,7 +39,7 @@ CHECKS = {
             TB + "; 'accepts the arguments' is judged by the real checker on the direct call", "DESIGN.md §5 C15", "E1"),
     "C22": ("model_checking",
             "CrossHair/z3 symbolic execution of the real comptime ownership bookkeeping (GuppyObject creation / _use_wire with symbolic copy-drop bounds and use counts), the real frozenlist under every list method, the real struct-object setattr",
-            "Restricted to the kernels: (a) one object from an arbitrary state: a use raises iff it was used before and is not copyable; it is listed as an unused non-droppable value (what the tracer reports as a leak) iff it is not droppable and never used; "
+            "Kernels and programs: (0) 150 use scripts (5 value kinds x lend / consume sequences of length <= 3 x ending) as comptime functions through the real check() + lowering (the real tracer) against the statement's rule; (a) one object from an arbitrary state: a use raises iff it was used before and is not copyable; it is listed as an unused non-droppable value (what the tracer reports as a leak) iff it is not droppable and never used; "
             "(b) frozenlist: every callable attribute of list (taken from dir(list) at run time) x 11 argument tuples x lengths 0..3, plus 6 in-place statement forms: contents never change; (c) frozen struct objects reject field assignment.",
             TB + "; stand-in tracing state; copyable => droppable", "DESIGN.md §5 C22", "E1"),
     "C31": ("model_checking",
@@ -61,16 +61,17 @@ CHECKS = {
             TB + "; lib/e6.py oracle = executable statement of the path condition and ownership rules; generator", "DESIGN.md §5 C06", "E4"),
     "C03": ("translation_validation",
             "CrossHair/z3 symbolic execution of (CPython on the source || walk over the CFG the real CFGBuilder built) per corpus program, symbolic inputs and symbolic opaque-call results; real check() decides acceptance",
-            "CFG level only: for each program of a generated classical corpus (120 quick / 1500 thorough + fixed ones; if/elif/else, bounded while, for over range, break/continue/return, dead code, nested defs, unpacking, "
+            "Three levels: the CFG the real builder produces, the checked CFGs the real checker produces (E5) and the HUGR the real back end emits (E7), each executed side by side with CPython. For each program of a generated classical corpus (120 quick / 1500 thorough + fixed and array-flavoured ones; structs, generic helpers, symbolic ranges; if/elif/else, bounded while, for over range, break/continue/return, dead code, nested defs, unpacking, "
             "walrus, conditional expressions, short-circuit and chained comparisons) that the real check() accepts, every path of CPython's execution and of the block walk over the real builder's CFG is explored for symbolic inputs; "
-            "results, panics and event traces must agree. Programs inside the region of the known hoisting finding are probed separately.",
-            TB + "; lib/e4.py block walker (edge convention successors[1] = true), models of MakeIter/IterNext; the corpus generators", "DESIGN.md §5 C03", "E4"),
+            "results, panics and event traces must agree (E5 / E7 on the first 36 quick / 400-500 thorough programs; paths with a 64-bit overflow or inside a known C04 region are outside). Programs inside the region of the known hoisting finding are probed separately.",
+            TB + "; lib/e4.py block walker (edge convention successors[1] = true), models of MakeIter/IterNext; lib/e5.py, lib/e7.py interpreters; the corpus generators", "DESIGN.md §5 C03", "E4+E5+E7"),
     "C05": ("translation_validation",
             "CrossHair/z3 symbolic execution of (CPython on the source || walk over the real CFG) comparing ordered event traces, for symbolic inputs and symbolic results of every opaque call",
-            "CFG level only: effect-heavy generated programs (60 quick / 800 thorough + fixed): calls of opaque f/g/h, emit, panic interleaved with operators, and/or/not, comparisons, conditional expressions, walrus, tuples, in "
-            "assignment, condition, argument and return position. Event traces (callee, argument values) must be identical on every path. The two known findings (hoisting before earlier operands, double evaluation of a chained "
-            "comparison's middle operand) are delimited by syntactic region predicates and re-established by probes inside the regions.",
-            TB + "; lib/e4.py block walker (edge convention successors[1] = true), models of MakeIter/IterNext; the corpus generators" + "; lib/e4_region.py", "DESIGN.md §5 C05", "E4"),
+            "Three levels (real CFG, real checked CFGs, HUGR emitted by the real back end), each against CPython: effect-heavy generated programs (60 quick / 800 thorough + fixed + array-flavoured): calls of opaque f/g/h, emit, panic interleaved with operators, and/or/not, "
+            "comparisons, conditional expressions, walrus, tuples, subscript reads / stores / augmented stores, borrowed arrays, in assignment, condition, argument and return position. Event traces (callee, argument values) must be identical on every path; at HUGR level "
+            "every dataflow region must in addition order its possibly side-effecting nodes. Five known findings (hoisting before earlier operands, double evaluation of a chained comparison's middle operand, reflected comparisons, index before a temporary "
+            "container, outer index before inner index) are delimited by syntactic region predicates and re-established by probes inside the regions.",
+            TB + "; lib/e4.py block walker (edge convention successors[1] = true), models of MakeIter/IterNext; lib/e5.py, lib/e7.py interpreters; the corpus generators" + "; lib/e4_region.py", "DESIGN.md §5 C05", "E4+E5+E7"),
     "C32": ("translation_validation",
             "one program per Python statement/expression kind and optional clause through the real check(); every accepted one compared (CPython || walk over the real CFG) on all paths for symbolic inputs (CrossHair/z3)",
             "96 programs (node classes of CPython's ast and optional clauses are enumerated and the coverage is reported): rejected with a GuppyError is fine, accepted must behave as CPython executes the source. "
@@ -90,10 +91,12 @@ CHECKS = {
             TB + "; lib/setorder.py rewriting; assumption that set order is the only channel for hash-seed/heap-layout dependence", "DESIGN.md §5 C10", "E1"),
     "C21": ("model_checking",
             "CrossHair/z3 symbolic execution of the real comptime dunder dispatch (DunderMixin + fall-back wrappers) and the real regular-mode _synthesize_binary under the same symbolic type-check outcomes",
-            "Restricted to operator dispatch: for each of 18 binary operators, operand kinds (traced value / Python constant on either side) and outcomes of the direct and reflected method, the call the comptime path "
+            "Two levels. Lowering level: 31 bodies (operators with constants on either side, mixed int / float, bools, calls, tuples incl. a 1-tuple return, unrolled loops, arrays incl. arrays lent to borrowing functions, structs, int / float / abs / len, a traced nat next to int constants) are defined under both decorators, "
+            "checked and lowered by /repo (the comptime one through the real tracer), and the two emitted HUGRs are interpreted (lib/e7.py) on the same symbolic arguments and opaque results: values and event traces must agree; one known finding (Python int argument for a nat parameter). "
+            "Dispatch level: for each of 18 binary operators, operand kinds (traced value / Python constant on either side) and outcomes of the direct and reflected method, the call the comptime path "
             "finally makes and the call the regular checker makes must both denote the source expression (meaning table written from the Python data model), and both reject iff no method applies; every dunder DunderMixin defines "
             "asks for the method of its own name; unary table agrees.",
-            TB + "; recording stand-ins for tracing state and Globals.get_instance_func; the data-model table in the harness", "DESIGN.md §5 C21", "E1"),
+            TB + "; recording stand-ins for tracing state and Globals.get_instance_func; the data-model table in the harness; lib/e7.py (both sides read by the same interpreter)", "DESIGN.md §5 C21", "E1+E7"),
     "C24": ("model_checking",
             "CrossHair/z3 symbolic execution of the real unitary checker on checked blocks with symbolic context/callee/nested-call flag sets and argument shapes; oracle = the statement's rejection rule",
             "BBUnitaryChecker/check_cfg_unitary/check_invalid_under_dagger run on blocks built from the real node classes: all 8x8x8 flag sets x 6 argument shapes x 9 positions of the call (statement, assignment/annotated/augmented value, "
